@@ -380,3 +380,7 @@ func LogAt(i int) uint64 {
 
 // Point is a scheduling point of the native schedule replay (no-op unless a schedule is loaded).
 func Point(kind string) {}
+
+// RenderIntegralSplit lets the engine case-split the "%.Nf" rendering of a symbolic float64 on
+// "integral and within int64". No-op natively.
+func RenderIntegralSplit() {}
